@@ -587,3 +587,28 @@ func (m *Model) AddSlotToAL(a common.Address, k common.Hash) {
 	m.cur.alAddr[a] = true
 	m.cur.alSlot[slotKey{a, k}] = true
 }
+
+// HasNoncelessStorage reports whether some account has nonce 0, no code and
+// non-empty storage (the EIP-7610 class: creatable only before EIP-158 by init
+// code that stores and returns no code).
+func (w World) HasNoncelessStorage() bool {
+	for _, acc := range w {
+		if acc.Nonce == 0 && len(acc.Code) == 0 && len(acc.Stor) > 0 {
+			return true
+		}
+	}
+	return false
+}
+
+// EffectiveRules clamps a planned rule set: Cancun and later are only entered
+// when no EIP-7610-class account exists. From Cancun on the implementation
+// refuses to wipe storage of a removed account ("unexpected storage wiping"),
+// relying on the fact that on the real chain such accounts can never become
+// empty; a world that contains one and lets it be drained or touched is
+// outside the operating assumptions of the code under test.
+func EffectiveRules(planned int, w World) int {
+	if planned >= RCancun && w.HasNoncelessStorage() {
+		return REIP158
+	}
+	return planned
+}
